@@ -925,6 +925,7 @@ func (r *Run) closureTerm(c *Closure) Term {
 		return c.id
 	}
 	c.id = r.havoc("clo", "Int")
+	r.emit(fmt.Sprintf("(assert (> %s 0))", c.id.S))
 	if r.closures == nil {
 		r.closures = map[string]*Closure{}
 	}
